@@ -1,0 +1,18 @@
+//go:build verif
+
+package dkv
+
+import "reduction.dev/reduction/dkv/sst"
+
+// Accessors for the verification harness (/verif, properties C08/C09). Compiled only with -tags verif.
+
+// VerifMemtableCount returns the number of memtables (sealed + the active one).
+func (db *DB) VerifMemtableCount() int { return len(db.mtables.Sealed()) + 1 }
+
+// VerifLevelDocs returns the documents of the tables of the current level set.
+func (db *DB) VerifLevelDocs() [][]sst.TableDocument { return db.currentSSTables().Document() }
+
+// VerifSeqNums returns the write counter and the LatestSeqNum of the current level set.
+func (db *DB) VerifSeqNums() (seqNum, latestFlushed uint64) {
+	return db.seqNum, db.currentSSTables().LatestSeqNum
+}
